@@ -77,6 +77,9 @@ def main():
         open(os.path.join(dst, 'patch.diff'), 'w').write(patch_text if patch_text.endswith('\n') else patch_text + '\n')
         if os.path.exists(eq):
             shutil.copy(eq, os.path.join(dst, 'equiv.py'))
+        for fn in os.listdir(src):          # helper modules the scripts import
+            if fn.endswith('.py') and not re.match(r'(demo|equiv)_[A-Z]\.py$', fn):
+                shutil.copy(os.path.join(src, fn), os.path.join(dst, fn))
         notes = os.path.join(src, 'notes.md')
         if os.path.exists(notes):
             shutil.copy(notes, os.path.join(dst, 'agent_notes.md'))
